@@ -31,3 +31,20 @@ int low_byte(int v) {
     return v & (256 - 1);
 }
 }   // namespace dsplib
+namespace dsplib {
+namespace {
+// internal helper: every caller has checked the length
+arr_cmplx rotate_pow2(const arr_cmplx& x, int k) {
+    const int n = x.size();
+    arr_cmplx y(n);
+    for (int i = 0; i < n; ++i) {
+        y[i] = x[(i + k) & (n - 1)];
+    }
+    return y;
+}
+}   // namespace
+arr_cmplx half_turn(const arr_cmplx& x) {
+    DSPLIB_ASSERT(ispow2(x.size()), "length must be a power of two");
+    return rotate_pow2(x, x.size() / 2);
+}
+}   // namespace dsplib
